@@ -1,10 +1,11 @@
 (* C10 — Channel discipline: one sender, one receiver, one Close, whole messages.
    This file only restates the property theorems; proofs are in chan/Discipline.v (trace
-   theory of the lock discipline) and srv/SrvC10.v (server model).  The client half
-   (c10_close_once_cli) lives with the client model. *)
+   theory of the lock discipline), srv/SrvC10.v (server model) and srv/SrvC10b.v (every run of
+   the server model, read as lock / Send / Close / Recv events, is well-locked and disciplined). *)
+(* client side: see coq/cli/CliC10.v *)
 From Coq Require Import List NArith ZArith Bool Arith.
 From RecordUpdate Require Import RecordUpdate.
-From JV Require Import Bytes Msg SrvModel SrvLemmas SrvC09 Discipline SrvC10.
+From JV Require Import Bytes Msg SrvModel SrvLemmas SrvC09 Discipline SrvC10 SrvC10b.
 Import ListNotations.
 
 (* A. under mutex semantics the lock discipline implies the Channel contract: at every prefix
@@ -18,6 +19,70 @@ Theorem c10_no_overlap : forall rdr es,
     (forall i b i' b', open p i b -> is_rdB b -> open p i' b' -> is_rdB b' -> i = i' /\ b = b').
 Proof. exact no_overlap. Qed.
 Print Assumptions c10_no_overlap.
+
+(* A'. the server model follows the discipline.  [evs s tr] reads a run as the events an instrumented Channel and the
+       server mutex would see: the window of a release label l is a critical section of goroutine [gid l]
+       (Lock; one SendB/SendE pair per OSend / OSendReq and one CloseB/CloseE pair per OClose observed; Unlock);
+       environment labels take no lock; the reader of the current run (goroutine 0) enters Recv when it becomes idle
+       and leaves it when a record or an error is handed to it.  For every trace: *)
+Theorem c10_model_disciplined : forall c tr s oss, run (init_of c) tr = Some (s, oss) ->
+  well_locked (evs (init_of c) tr) /\ disciplined 0 (evs (init_of c) tr).
+Proof. exact model_disciplined. Qed.
+Print Assumptions c10_model_disciplined.
+
+(* ... hence the Channel contract at every prefix of the events of every run of the server *)
+Theorem c10_model_no_overlap : forall c tr s oss, run (init_of c) tr = Some (s, oss) ->
+  forall p r, evs (init_of c) tr = p ++ r ->
+    (forall i b i' b', open p i b -> is_wrB b -> open p i' b' -> is_wrB b' -> i = i' /\ b = b') /\
+    (forall i b, open p i b -> is_wrB b -> holder p = Some (ev_g b)) /\
+    (forall i b i' b', open p i b -> is_rdB b -> open p i' b' -> is_rdB b' -> i = i' /\ b = b').
+Proof. exact model_no_overlap. Qed.
+Print Assumptions c10_model_no_overlap.
+
+(* the reading, spelled out *)
+Theorem c10_model_events_spec :
+  (forall s l os s', win_evs s l os s' = lock_evs l os ++ recv_evs l (rd s) (rd s')) /\
+  (forall l os, lock_evs l os =
+     if takes_lock l then [Lock (gid l)] ++ flat_map (op_evs (gid l)) os ++ [Unlock (gid l)] else []) /\
+  (forall g o, op_evs g o = match o with
+                            | OSend _ _ _ | OSendReq _ _ _ _ => [SendB g; SendE g]
+                            | OClose => [CloseB g; CloseE g]
+                            | _ => []
+                            end) /\
+  (forall l r r', recv_evs l r r' =
+     match l with
+     | LStart | LRelRead => (if rd_alive r' then [RecvB 0] else []) ++ (if is_hold r' then [RecvE 0] else [])
+     | _ => if rd_in_recv r && is_hold r' then [RecvE 0] else []
+     end) /\
+  (forall s, evs s [] = []) /\
+  (forall s l r, evs s (l :: r) = match step s l with Some (s1, os) => win_evs s l os s1 ++ evs s1 r | None => [] end).
+Proof. exact events_spec. Qed.
+Print Assumptions c10_model_events_spec.
+
+(* ... is complete: every channel operation observed in a window is among its events, and a window that takes no
+   lock performs none *)
+Theorem c10_model_events_complete : forall s l s' os, step s l = Some (s', os) ->
+  length (filter is_wr_begin (win_evs s l os s')) = length (filter is_chan_op os) /\
+  (takes_lock l = false -> filter is_chan_op os = []).
+Proof. exact win_evs_complete. Qed.
+Print Assumptions c10_model_events_complete.
+
+(* ... and how the reader moves: it is released only when it holds a record; Start is enabled only when the previous
+   reader has exited; every other window leaves it alone or hands it the next record *)
+Theorem c10_reader_moves : forall c s l s' os, reach c s -> step s l = Some (s', os) ->
+  match l with
+  | LStart => rd s = RExited \/ rd s = RNone
+  | LRelRead => exists f, rd s = RHold f
+  | _ => rd s' = rd s \/ (rd s = RIdle /\ exists f, rd s' = RHold f)
+  end.
+Proof. exact step_rd. Qed.
+Print Assumptions c10_reader_moves.
+
+(* reader exclusivity across restarts *)
+Theorem c10_reader_exclusive : forall c s s' os, reach c s -> step s LStart = Some (s', os) ->
+  (rd s = RExited \/ rd s = RNone) /\ wg s = 0 /\ running s = false /\ rd s' = RIdle /\ ch_in s' = [].
+Proof. exact reader_exclusive. Qed.
+Print Assumptions c10_reader_exclusive.
 
 (* B1. exactly one Close per Start *)
 Theorem c10_close_once_srv : forall c s, reach c s -> closes s + (if running s then 1 else 0) = starts s.
